@@ -44,6 +44,9 @@ def load(tier, repo=None):
     configs = extract.THOROUGH if tier == "thorough" else extract.QUICK
     files, th = extract.extract(configs, root=repo)
     programs = {c: facts.Program(c, files[c]) for c in configs}
+    # helpers that did not exist when the rules were written are analysed in place (inline.py)
+    import inline
+    programs = {c: inline.transparent_view(p) for c, p in programs.items()}
     for c, p in programs.items():
         for need in ("stylua_lib", "stylua"):
             if need not in p.crates:
